@@ -538,6 +538,12 @@ fn build_case(stream: &str, idx: usize, seed: u64, thorough: bool, corpus: &[(St
                 max_depth: 2 + r.below(3),
                 effects: true,
                 wildcard_arrays: r.chance(1, 2),
+                src_forms: true,
+                lit_field_effects: r.chance(1, 2),
+                rich_generics: true,
+                vec_generics: true,
+                dyn_generics: true,
+                generic_fn_values: r.chance(1, 2),
                 nested_patterns: true,
             };
             let mut rr = r.fork(5);
